@@ -46,8 +46,9 @@ structure Funs (M Mask : Type) where
   zero : M
   /-- `FieldUpdater.Validate` given (writable fields, update mask, message) -/
   validate : Option Mask → Option Mask → M → Option Err
-  /-- `FieldUpdater.Merge(dst, src)`: new contents of `(dst, src)` — src is filtered in place -/
-  merge : Option Mask → Option Mask → M → M → M × M
+  /-- `FieldUpdater.Merge(dst, src)` given (writable fields, update mask, reset mask): new contents of
+  `(dst, src)` — src is filtered in place -/
+  merge : Option Mask → Option Mask → Option Mask → M → M → M × M
   /-- `ResponseFilter.FilterClone` with a non-nil mask, applied to a clone -/
   project : Mask → M → M
   /-- `proto.Equal` -/
@@ -55,6 +56,8 @@ structure Funs (M Mask : Type) where
 
 structure WOpts (M Mask : Type) where
   umask : Option Mask := none
+  /-- `WithResetMask` -/
+  rmask : Option Mask := none
   before : Option (Cb M) := none
   after : Option (Cb M) := none
   /-- `WithExpectedValue` -/
@@ -71,12 +74,16 @@ def WOpts.Pure {M Mask : Type} (o : WOpts M Mask) : Prop :=
 structure Sub (Mask : Type) where
   mask : Option Mask
   live : Bool
+  /-- `PullID`: only this item's changes, the new value only; ends when the item is removed -/
+  only : Option Nat := none
 
 structure St (M Mask : Type) where
   heap : Heap M
   /-- allocation pointer: every reference `≥ next` is unallocated -/
   next : Ref
   writable : Option Mask
+  /-- `WithIDInterceptor` (identity when not configured) -/
+  idmap : Nat → Nat := id
   /-- `Value.value` -/
   val : Option Ref
   /-- `Collection.byId`, kept sorted by id -/
@@ -132,6 +139,18 @@ def emit (F : Funs M Mask) (tag : String) (old new : Option Ref) : St M Mask →
       (s3, .tag tag :: o :: n :: is)
     else emit F tag old new s rest
 
+/-- the same change as seen by the `PullID` subscribers of item `id`: the new value only -/
+def emitOnly (F : Funs M Mask) (id : Nat) (new : Ref) : St M Mask → List (Sub Mask) → St M Mask × List Item
+  | s, [] => (s, [])
+  | s, sub :: rest =>
+    if sub.live && sub.only == some id then
+      let (s1, n) := deliver F sub.mask s (some new)
+      let (s2, is) := emitOnly F id new s1 rest
+      (s2, .tag "P" :: n :: is)
+    else emitOnly F id new s rest
+
+def isWide (sub : Sub Mask) : Bool := sub.only.isNone
+
 def runCb (cb : Option (Cb M)) (h : Heap M) (o : Option Ref) (n : Ref) : Heap M :=
   match cb with
   | some f => f h o n
@@ -155,7 +174,7 @@ def change (F : Funs M Mask) (s : St M Mask) (old : Option Ref) (dst src : Ref) 
     | some e => (s.heap, some e)
     | none =>
       let h1 := runCb o.before s.heap old src
-      let ds := F.merge s.writable o.umask (h1 dst) (h1 src)
+      let ds := F.merge s.writable o.umask o.rmask (h1 dst) (h1 src)
       let h2 := (h1.set dst ds.1).set src ds.2
       let h3 := runCb o.after h2 old dst
       (h3, none)
@@ -186,8 +205,9 @@ def commit (F : Funs M Mask) (s0 : St M Mask) (target : Option Nat) (tag : Strin
     let s1 : St M Mask := match target with
       | none => { s0 with heap := res.1, val := some dst, pub := s0.pub ++ [dst] }
       | some id => { s0 with heap := res.1, coll := insertSorted id dst s0.coll, pub := s0.pub ++ [dst] }
-    let r := emit F tag oldEv (some dst) s1 (match target with | none => s1.vsubs | some _ => s1.csubs)
-    (r.1, .ok (.msg dst :: r.2))
+    let r := emit F tag oldEv (some dst) s1 (match target with | none => s1.vsubs | some _ => s1.csubs.filter isWide)
+    let r2 := emitOnly F (target.getD 0) dst r.1 (match target with | none => [] | some _ => s1.csubs)
+    (r2.1, .ok (.msg dst :: (r.2 ++ r2.2)))
 
 /-- `Value.Set(owned[i], opts)` -/
 def vset (F : Funs M Mask) (s : St M Mask) (i : Nat) (o : WOpts M Mask) : St M Mask × Ans :=
@@ -239,8 +259,10 @@ def cdel (F : Funs M Mask) (s : St M Mask) (id : Nat) (o : WOpts M Mask) : St M 
     | some e => ({ s with pub := s.pub ++ [old] }, { err := some e, items := [.msg old] })
     | none =>
       let s1 : St M Mask := { s with coll := erase id s.coll, pub := s.pub ++ [old] }
-      let r := emit F "R" (some old) none s1 s1.csubs
-      (r.1, .ok (.msg old :: r.2))
+      let r := emit F "R" (some old) none s1 (s1.csubs.filter isWide)
+      -- the item's PullID streams end (PullID returns on REMOVE without sending)
+      ({ r.1 with csubs := r.1.csubs.map fun sub => if sub.only == some id then { sub with live := false } else sub },
+        .ok (.msg old :: r.2))
 
 def closeSub (subs : List (Sub Mask)) (i : Nat) : List (Sub Mask) :=
   subs.mapIdx fun j sub => if j = i then { sub with live := false } else sub
@@ -259,6 +281,7 @@ inductive Op (M Mask : Type)
   | cget (id : Nat) (mask : Option Mask)
   | clist (mask : Option Mask)
   | cpull (mask : Option Mask) (updatesOnly : Bool)
+  | cpullid (id : Nat) (mask : Option Mask) (updatesOnly : Bool)
   | cclose (i : Nat)
 
 def step (F : Funs M Mask) (s : St M Mask) : Op M Mask → St M Mask × Ans
@@ -276,10 +299,11 @@ def step (F : Funs M Mask) (s : St M Mask) : Op M Mask → St M Mask × Ans
     let (s1, it) := if uo then (s, Item.absent) else deliver F mask s s.val
     ({ s1 with vsubs := s1.vsubs ++ [{ mask := mask, live := true }] }, .ok [it])
   | .vclose i => ({ s with vsubs := closeSub s.vsubs i }, .ok [])
-  | .cupd id i o => cupd F s id i o
-  | .cdel id o => cdel F s id o
+  -- the id interceptor maps the caller's id first
+  | .cupd id i o => cupd F s (s.idmap id) i o
+  | .cdel id o => cdel F s (s.idmap id) o
   | .cget id mask =>
-    match lookup s.coll id with
+    match lookup s.coll (s.idmap id) with
     | none => (s, .ok [.absent])
     | some r => let (s1, it) := deliver F mask s (some r); (s1, .ok [it])
   | .clist mask =>
@@ -288,6 +312,10 @@ def step (F : Funs M Mask) (s : St M Mask) : Op M Mask → St M Mask × Ans
   | .cpull mask uo =>
     let (s1, its) := if uo then (s, []) else deliverList F mask s (s.coll.map (·.2))
     ({ s1 with csubs := s1.csubs ++ [{ mask := mask, live := true }] }, .ok its)
+  | .cpullid id mask uo =>
+    -- PullID: the seed is the item itself if it exists (unless updates-only)
+    let r := if uo then (s, Item.absent) else deliver F mask s (lookup s.coll (s.idmap id))
+    ({ r.1 with csubs := r.1.csubs ++ [{ mask := mask, live := true, only := some (s.idmap id) }] }, .ok [r.2])
   | .cclose i => ({ s with csubs := closeSub s.csubs i }, .ok [])
 
 def run (F : Funs M Mask) : St M Mask → List (Op M Mask) → St M Mask
@@ -305,7 +333,7 @@ def Op.Pure : Op M Mask → Prop
   | _ => True
 
 def Op.isRead : Op M Mask → Bool
-  | .vget _ | .vpull _ _ | .cget _ _ | .clist _ | .cpull _ _ => true
+  | .vget _ | .vpull _ _ | .cget _ _ | .clist _ | .cpull _ _ | .cpullid _ _ _ => true
   | _ => false
 
 /-- `r` is held by the store -/
